@@ -3,6 +3,7 @@
 //@include ghost_bits_cw.rs
 //@include ghost_build_cw.rs
 //@include ghost_nfa_cw.rs
+//@include ghost_cwb.rs
 
 // R19: the sort of the (code, child id) pairs is redirected here; body = the original call.  Only "same elements" is
 // assumed (the order matters for determinism, C14, not for correctness)
